@@ -45,6 +45,8 @@ SOURCES = ['parser.py']
 CONVS = ['default', 'code', 'wrap', 'count', 'empty', 'fields']
 SIG_NAMESPACE = 'C15|exec-of-text|namespace-needs-typing-names'
 SIG_NP = 'C15|exec-of-text|namespace-needs-np'
+SIG_FREE = 'C15|build_model-vs-exec|free-names-resolve-in-parser-globals'
+SIG_STRLIT = 'C15|converter-output|indent-inside-string-literal'
 ATTRS = ('ENDOGENOUS', 'EXOGENOUS', 'PARAMETERS', 'ERRORS', 'NAMES', 'CHECK', 'LAGS', 'LEADS')
 PREFIX = ' ' * 8
 
@@ -66,6 +68,23 @@ def real_conv(kind):
 
 
 # --------------------------------------------------------------------------- implementation
+def _outputs_in_order(text, outputs):
+    lines = text.splitlines()
+    # the body of _evaluate: after the last docstring delimiter line of the template part is too template-specific; search
+    # the whole text from the top, in order
+    pos = 0
+    for out in outputs:
+        for ln in out.splitlines():
+            if not ln.strip():
+                continue
+            while pos < len(lines) and not (lines[pos].endswith(ln) and not lines[pos][:len(lines[pos]) - len(ln)].strip()):
+                pos += 1
+            if pos == len(lines):
+                return False
+            pos += 1
+    return True
+
+
 def _namespace():
     import fsic
     import numpy as np
@@ -90,7 +109,7 @@ def _attrs(cls):
     return out
 
 
-def _evaluate(cls, seed, lags, leads):
+def _evaluate(cls, seed, lags, leads, positive=False):
     """values of every variable after _evaluate at several periods — the first and last at which offsets in -3..3 stay
     inside a span of 12 (boundary periods) and one in the middle — two passes each, on finite data and on data with
     NaN / inf / -inf / -0.0, with and without the keyword arguments of the generated signature"""
@@ -101,7 +120,7 @@ def _evaluate(cls, seed, lags, leads):
         n = 12
         m = cls(list(range(n)))
         for name in m.names:
-            vals = [round(rng.uniform(-2, 2), 3) for _ in range(n)]
+            vals = [round(rng.uniform(0.25, 2), 3) if positive else round(rng.uniform(-2, 2), 3) for _ in range(n)]
             if kind == 'special':
                 for k in rng.sample(range(n), 4):
                     vals[k] = rng.choice([float('nan'), float('inf'), float('-inf'), -0.0, 0.0, 1e308])
@@ -167,8 +186,9 @@ def impl_one(case, shared):
     o['count'] = lg.f.n if kind == 'count' else 0
     block = '\n\n'.join(textwrap.indent(r, PREFIX) for r in lg.returned)
     want_block = block if len(block) else PREFIX + 'pass'
-    # the block is the end of the text (a trailing newline after it would be harmless)
-    o['block_verbatim'] = want_block in text and text.rstrip('\n').endswith(want_block.rstrip('\n'))
+    # what the property says: every converter output appears in the text, in symbol order, line by line unchanged except for a
+    # common leading indentation (which prefix, and what separates two outputs, is the generator's business; K_text is strict)
+    o['block_verbatim'] = _outputs_in_order(text, lg.returned) if len(block) else ('pass' in text.split('"""')[-1])
     o['block_empty'] = len(block) == 0
     o['block'] = pc.hx(block if len(block) else PREFIX + 'pass')
     o['emitting'] = [[s.name, s.type.name] for s in syms if s.type in (fsic.parser.Type.ENDOGENOUS, fsic.parser.Type.VERBATIM)
@@ -227,11 +247,14 @@ def impl_one(case, shared):
         try:
             exec(t, ns)
             bare[label] = 'ok'
-            if 'np.' in t and case.get('script') is not None and ns.get('Model') is not None:
+            if (case.get('safe') or 'np.' in t) and case.get('script') is not None and ns.get('Model') is not None:
                 try:
                     mm = ns['Model'](list(range(12)))
+                    for nm in mm.names:
+                        mm[nm] = 1.5
                     mm._evaluate(5)
                     bare[label + '_eval'] = 'ok'
+                    bare[label + '_uses_np'] = 'np.' in t
                 except NameError as e:
                     bare[label + '_eval'] = 'NameError:' + str(getattr(e, 'name', ''))
                 except BaseException as e:      # noqa: BLE001
@@ -243,11 +266,19 @@ def impl_one(case, shared):
     o['bare'] = bare
     o['attrs'] = {k: _attrs(v) for k, v in ways.items() if v is not None}
     o['missing_model'] = [k for k, v in ways.items() if v is None]
+    if case.get('strlit_want') is not None and ways.get('build_model') is not None:
+        try:
+            mm = ways['build_model'](list(range(2)))
+            mm.strict = False
+            mm._evaluate(0)
+            o['strlit'] = mm.s
+        except BaseException as e:      # noqa: BLE001
+            o['strlit'] = 'exc:' + type(e).__name__
     if case.get('safe') and ways and all(v is not None for v in ways.values()):
         vals = {}
         for k, v in ways.items():
             try:
-                vals[k] = _evaluate(v, case['seed'], v.LAGS, v.LEADS)
+                vals[k] = _evaluate(v, case['seed'], v.LAGS, v.LEADS, positive=bool(case.get('positive')))
             except BaseException as e:      # noqa: BLE001
                 vals[k] = 'exc:' + type(e).__name__
         o['values'] = vals
@@ -348,8 +379,6 @@ def oracle_one(case, o):
         out.append(_f('converter-calls', 'log', 'converter called with %r, emitting symbols are %r' % (o['calls'], o['emitting'])))
     if not o['block_verbatim']:
         out.append(_f('converter-output', 'verbatim', 'the text does not end with the indented converter outputs joined by blank lines'))
-    if case['conv'] == 'default' and o.get('default_same') is not True:
-        out.append(_f('default-converter', 'text', 'converter=None gives another text than the documented default converter'))
     if 'other_exc' in o:
         out.append(_f('typed-vs-untyped', o['other_exc'], 'the other template raised %s' % o['other_exc']))
     attrs = o.get('attrs', {})
@@ -359,11 +388,8 @@ def oracle_one(case, o):
         if 'build_model' in attrs:
             out.append(_f('build_model-vs-exec', 'class-returned-though-text-does-not-execute',
                           'exec(text) raises %s but build_model returned a class (ENDOGENOUS %r)' % (o['exec_text_exc'], attrs['build_model']['ENDOGENOUS'])))
-        else:
-            want = 'BuildError' if o['exec_text_exc'] in ('SyntaxError', 'IndentationError', 'TabError') else o['exec_text_exc']
-            if o.get('build_exc') != want:
-                out.append(_f('build_model-vs-exec', 'exception:%s' % o.get('build_exc'),
-                              'exec(text) raises %s, build_model raised %s (expected %s)' % (o['exec_text_exc'], o.get('build_exc'), want)))
+        elif 'build_exc' not in o:
+            out.append(_f('build_model-vs-exec', 'no-exception', 'exec(text) raises %s, build_model neither raised nor returned a class' % o['exec_text_exc']))
         if case.get('safe') and case['conv'] != 'broken':
             out.append(_f('exec-text', o['exec_text_exc'], 'the generated text of a well-formed script does not execute'))
         return out
@@ -406,9 +432,22 @@ def oracle_one(case, o):
         else:
             out.append(_f('exec-of-text', 'typed:' + bare[typed_label], 'the typed text fails in a namespace with BaseModel alone: %s' % bare[typed_label]))
     for lab in ('text_eval', 'other_eval'):
-        if bare.get(lab) == 'NameError:np':
+        res = bare.get(lab)
+        if res is None:
+            continue
+        if res == 'NameError:np':
             out.append({'sig': SIG_NP, 'what': 'evaluating a model whose code uses exp / log needs `np` in the namespace the text was executed in'})
+        elif res != 'ok' and case.get('safe') and not case.get('free_name'):
+            # every other outcome of an evaluable script is judged: with BaseModel alone it must evaluate
+            out.append(_f('exec-of-text', 'bare-evaluate:' + res, 'a well-formed model executed with BaseModel alone cannot be evaluated: %s' % res))
     vals = o.get('values')
+    if vals and vals.get('exec_text') == 'exc:NameError' and 'build_model' in vals and vals['build_model'] != 'exc:NameError':
+        # kept finding: the class returned by build_model resolves free names in fsic.parser's globals, the exec'd classes in theirs
+        out.append({'sig': SIG_FREE, 'what': 'a free name of the equations resolves in fsic.parser for the class of build_model (%s) and is a NameError '
+                    'for the class executed from CODE / the text' % vals['build_model']})
+        vals = None
+    if o.get('strlit') is not None and o['strlit'] != case.get('strlit_want'):
+        out.append({'sig': SIG_STRLIT, 'what': 'a multi-line string literal in verbatim code is changed by the indentation: %r instead of %r' % (o['strlit'], case.get('strlit_want'))})
     if vals:
         r = vals.get('exec_text')
         for k, v in vals.items():
@@ -468,7 +507,7 @@ def shrink_candidates(case):
     if c.get('symbols'):
         for i in range(len(c['symbols'])):
             yield dict(c, symbols=c['symbols'][:i] + c['symbols'][i + 1:])
-    elif c.get('script'):
+    elif c.get('script') and c.get('kind') != 'evaluated':
         lines = c['script'].split('\n')
         for i in range(len(lines)):
             yield dict(c, script='\n'.join(lines[:i] + lines[i + 1:]))
@@ -610,6 +649,35 @@ def gen(rng, tier):
     for _ in range(300 if big else 60):
         ast = bc.gen_ast(rng, safe=True, n_eq=rng.choice([1, 2, 3]))
         add('ast', script=bc.render_ast(ast), hints=rng.random() < 0.5, conv='broken')
+    # evaluated on all four routes: functions (exp log max min abs np.sqrt), a conditional, a one-line verbatim block — positive data
+    def rich_term():
+        v = lambda: rng.choice(['X', 'Z', 'W']) + rng.choice(['', '', '[-1]', '[1]', '[-2]'])
+        r = rng.random()
+        if r < 0.35:
+            return v()
+        if r < 0.5:
+            return rng.choice(['{a}', '<e>', '2', '0.5'])
+        f = rng.choice(['exp', 'log', 'abs', 'np.sqrt', 'max', 'min'])
+        return '%s(%s, %s)' % (f, v(), v()) if f in ('max', 'min') else '%s(%s)' % (f, v())
+    for _ in range(3000 if big else 300):
+        lines = []
+        for y in rng.sample(['Y', 'C', 'I'], rng.choice([1, 2, 3])):
+            rhs = ' '.join([rich_term()] + [rng.choice(['+', '-', '*', '/']) + ' ' + rich_term() for _ in range(rng.choice([0, 1, 2]))])
+            if rng.random() < 0.3:
+                rhs = '%s if %s > %s else %s' % (rich_term(), rich_term(), rng.choice(['1', 'Z', '{a}']), rich_term())
+            lines.append('%s = %s' % (y, rhs))
+        if rng.random() < 0.4:
+            y0 = lines[0].split(' = ')[0]              # a name that certainly is a variable of the model
+            lines.insert(rng.randrange(1, len(lines) + 1), rng.choice(['`k_ = 2.0`', '`self._%s[t] = self._%s[t] * 1.0`' % (y0, y0), '`import math`']))
+        c = {'kind': 'evaluated', 'script': '\n'.join(lines), 'symbols': None, 'opts': _opts(rng) if rng.random() < 0.3 else {}, 'hints': rng.random() < 0.5,
+             'conv': rng.choice(['default', 'default', 'code', 'wrap', 'count', 'fields']), 'seed': rng.randrange(1 << 30), 'safe': True, 'positive': True}
+        cases.append(c)
+    for hints in (True, False):
+        # kept findings: free names resolve in fsic.parser's globals for build_model's class; indentation inside a string literal
+        cases.append({'kind': 'free-name', 'script': 'Y = bool(split_equations(X)) + X', 'symbols': None, 'opts': {}, 'hints': hints, 'conv': 'default',
+                      'seed': 7, 'safe': True, 'positive': True, 'free_name': True})
+        cases.append({'kind': 'string-literal', 'script': '```\nself.s = \"\"\"a\n\nb\"\"\"\n```', 'symbols': None, 'opts': {}, 'hints': hints, 'conv': 'default',
+                      'seed': 7, 'safe': False, 'strlit_want': 'a\n\nb'})
     # histories: the SAME converter object used for several builds in one process (equal symbols, then other symbols)
     def one(script=None, symbols=None, conv='count', hints=True, opts=None, safe=False):
         return {'kind': 'history-step', 'script': script, 'symbols': symbols, 'opts': opts or {}, 'hints': hints, 'conv': conv,
